@@ -29,6 +29,10 @@ pub fn spec_for(seed: u64, index: u64, tier: Tier) -> SysSpec {
     {
         let mut spec = sysgen::generate(seed, "C10", index, &gen_cfg(tier));
         // bad states over inputs only, tied to a counter by a constraint
+        // a constraint gated by a chain of delay registers
+        if index % 11 == 7 {
+            sysgen::delayed_gate(&mut spec, index / 11);
+        }
         if index % 11 == 5 {
             sysgen::input_bad_state_constraint(&mut spec, index / 11, true);
         }
